@@ -12,6 +12,7 @@ import (
 	"path/filepath"
 	"strings"
 	"syscall"
+	"time"
 
 	"github.com/snower/slock/simrt/ssched"
 )
@@ -84,6 +85,7 @@ type Fault struct {
 	Err   error // fail the call (for writes after Short bytes)
 	Short int   // writes: number of bytes actually written before Err (or before the crash)
 	Crash bool  // kill the calling node inside this call (torn write when Short < len)
+	Delay time.Duration // the call takes this long (a slow or stalled disk); combined with the rest
 }
 
 type Disk struct {
@@ -94,7 +96,7 @@ type Disk struct {
 	OnCrash func(node int)
 	// OnOp observes every journalled call (after it happened).
 	OnOp  func(e *JEntry)
-	Stats struct{ Writes, Syncs, Errors, Torn, Removes, Renames int }
+	Stats struct{ Writes, Syncs, Errors, Torn, Removes, Renames, Stalls int }
 }
 
 var D *Disk
@@ -321,6 +323,17 @@ func (f *File) write(b []byte, off int64, at bool) (int, error) {
 	d.Stats.Writes++
 	var ft *Fault
 	if ft = d.fault("write", f.name, len(b)); ft != nil {
+		if ft.Delay > 0 {
+			d.Stats.Stalls++
+			tok := ssched.PreBlock()
+			time.Sleep(ft.Delay)
+			ssched.PostBlock(tok)
+			if !(ft.Crash || ft.Err != nil) {
+				ft = nil
+			}
+		}
+	}
+	if ft != nil {
 		k := ft.Short
 		if k > len(b) {
 			k = len(b)
